@@ -62,6 +62,23 @@ _MODELLED_EXC = (ValueError, TypeError, KeyError, IndexError, AttributeError, Lo
                  OverflowError, StopIteration, __import__('struct').error, __import__('decimal').InvalidOperation)
 
 
+class GenList(list):
+    """What a generator function of the repository returns here: the values it yields (the body is run eagerly), usable as a
+    list by the rules, and consumed like an iterator by `next` and `for`."""
+    _pos = 0
+
+    def __iter__(self):
+        while self._pos < len(self):
+            self._pos += 1
+            yield list.__getitem__(self, self._pos - 1)
+
+    def __next__(self):
+        if self._pos >= len(self):
+            raise StopIteration
+        self._pos += 1
+        return list.__getitem__(self, self._pos - 1)
+
+
 class Scope(dict):
     """A local scope that falls back to an enclosing environment (no copying of the globals per call)."""
     __slots__ = ('parent',)
@@ -500,6 +517,8 @@ def ev(node, env):
             raise Unknown(f'{ast.unparse(node)}: {type(ex).__name__}: {ex}')
     if t in (ast.ListComp, ast.GeneratorExp, ast.SetComp):
         out = list(_comp(node.generators, env, lambda e: ev(node.elt, e)))
+        if t is ast.GeneratorExp:
+            return GenList(out)         # evaluated eagerly, consumed like the iterator it is
         return set(out) if t is ast.SetComp else out
     if t is ast.DictComp:
         return dict(_comp(node.generators, env, lambda e: (ev(node.key, e), ev(node.value, e))))
